@@ -24,6 +24,7 @@ def parse(sim):
         if t[0] == "P":
             for part in t[5:]:
                 if part.startswith("H"): p.hup = int(part[1:]); continue
+                if part.startswith("W"): continue
                 fd, rev, rk, hexs, cap = part.split(":")
                 p.delivered[int(fd)] = dict(rev=int(rev), rk=int(rk), data=unhex(hexs), cap=int(cap))
         for l in res:
